@@ -292,7 +292,7 @@ def run(ck):
                                      wt, "write-fieldspace", f1, sample=i < 2))
 
     lap(ck, "write-sweep+tie")
-    sweeps = [("t2", 62), ("t2", 129), ("t1d", 64)] if not ck.thorough else [("t2", 40), ("t2", 62), ("t2", 129), ("t2", 255), ("t1d", 64), ("t1d", 256)]
+    sweeps = [("t2", 62), ("t2", 129), ("t1d", 64)] if not ck.thorough else [("t2", 40), ("t2", 62), ("t2", 129), ("t1d", 64), ("t1d", 130)]
     sweep_lays = []
     for kind, size in sweeps:
         for lay in G.sweep(kind, size, rng, ck.thorough, 3, (ck.seed + size) % 3):
@@ -390,7 +390,7 @@ def vendor(ck, model, model3, wt2, ft, f1):
     from sims import c03_layouts as G
     from sims.c03_vendor import PRODUCTS, NxpSim, NXP_SDD
     rng = ck.rng
-    reps = 40 if ck.thorough else 5
+    reps = 18 if ck.thorough else 5
     vt = Tie(ck, model3, "nxp-format-model-vs-nfcpy", "CtlC03 model vs tt2_nxp _format on tags without NDEF TLV (factory pages, commands, memory)")
     for product in sorted(PRODUCTS):
         p = PRODUCTS[product]
